@@ -14,7 +14,7 @@ import itertools
 import json
 from typing import Any, Dict, List, Optional, Sequence, Tuple
 
-from mc import core, harness, traces
+from mc import core, gen, harness, traces
 from mc.core import Result, Violation
 
 
@@ -189,9 +189,14 @@ def pick_records(records: List[dict], limit: int) -> List[List[int]]:
         life = life[:limit]
         room = 0
     picks = []
-    combos = list(itertools.combinations(sers, min(room, len(sers))))
-    for c in combos[:6]:
-        picks.append(sorted(life + list(c)))
+    k = min(room, len(sers))
+    if len(sers) <= 14:
+        combos = list(itertools.combinations(sers, k))[:6]
+    else:  # long traces: six evenly spread selections instead of materialising C(n, k) combinations
+        step = max(1, len(sers) // max(1, k))
+        combos = [tuple((sers[off::step] + sers)[:k]) for off in range(6)]
+    for c in combos:
+        picks.append(sorted(set(life + list(c))))
     return picks
 
 
@@ -204,6 +209,11 @@ def make_traces(tier: str) -> List[Tuple[str, List[dict]]]:
             recs, files, real, _, _ = traces.traced_single(prog, dk, ctx, mode=mode)
             if recs:
                 out.append((f"single:{'+'.join(prog)}:{mode}:{real.status}", recs))
+    # beyond the small scope: a 61-node pipeline (every prefix leaves up to 61 nodes without a SER) and a 33-node one failing at node 4
+    for prog in gen.LONG_PROGS[:1] + gen.LONG_PROGS[2:3]:
+        recs, files, real, _, _ = traces.traced_single(prog, "none", {}, mode="file")
+        if recs:
+            out.append((f"single-long{len(prog)}:{real.status}", recs))
     launches = traces.LAUNCH_CASES if tier == "thorough" else traces.LAUNCH_CASES[:2]
     for prog, rs in launches:
         for mode in ("dir", "file"):
